@@ -1168,31 +1168,42 @@ func verifPartitionSMF(m Message) (n int) {
 //@ modifies w.absPos, w.currentChunk, w.deltatime, asptr(w.runningWriter, runningstatus.smfwriter).status
 //@ ensures [P:C03] err == nil && writerInv(w) && w.runningWriter == old(w.runningWriter) && w.deltatime == 0 && w.headerWritten && w.error == nil
 //@ ensures [P:C03] len(w.currentChunk.data) == old(len(w.currentChunk.data)) + vlqLen(old(w.deltatime)) + old(bodyLen(w, m))
+//@ ensures [H] len(w.currentChunk.data) <= old(len(w.currentChunk.data)) + len(m) + 11
 //@ ensures [P:C03] forall i int :: 0 <= i && i < old(len(w.currentChunk.data)) ==> w.currentChunk.data[i] == old(w.currentChunk.data[i])
 //@ ensures [P:C03] forall j int :: old(len(w.currentChunk.data)) <= j && j < old(len(w.currentChunk.data)) + vlqLen(old(w.deltatime)) ==> w.currentChunk.data[j] == vlqByte(old(w.deltatime), j - old(len(w.currentChunk.data)))
 //@ ensures [P:C01] (!old(isSx(m)) && !old(elide(w, m))) ==> forall j int :: old(len(w.currentChunk.data)) + vlqLen(old(w.deltatime)) <= j && j < len(w.currentChunk.data) ==> w.currentChunk.data[j] == m[j - old(len(w.currentChunk.data)) - vlqLen(old(w.deltatime))]
 //@ ensures [P:C03] w.runningWriter != nil ==> wrs(w) == (old(isCh(m)) ? m[0] : 0)
 
-// writeChunkTo: emits the track chunk "MTrk" <length> <body> and prepares the writer for the next track:
-// empty body, delta 0, fresh running status
+// writeChunkTo: emits the track chunk "MTrk" <length> <body> to the writer's own counting destination and
+// prepares the writer for the next track: empty body, delta 0, fresh running status.
+// (It is only ever called with wr = w.output; calls on an io.Writer whose dynamic type is *wrWrapper are
+// executed as (*wrWrapper).Write, all others by the abstract io.Writer contract.)
+//@ devirt iface:io.Writer.Write *smf.wrWrapper
+//@ macro snk(w) = w.output.wr
+
 //@ func (*writer).writeChunkTo
-//@ inline
-//@ requires writerInv(w) && wr != nil && wr.wlen >= 0 && len(w.currentChunk.data) < 2147483648
-//@ modifies w.currentChunk, w.deltatime, w.tracksProcessed, w.runningWriter, wr.wdata, wr.wlen, wr.wfailed
-//@ ensures [P:C10] err == nil ==> (wr.wlen == old(wr.wlen) + 8 + old(len(w.currentChunk.data)) && wr.wfailed == old(wr.wfailed))
-//@ ensures [P:C10] wr.wlen < old(wr.wlen) + 8 + old(len(w.currentChunk.data)) ==> err != nil
-//@ ensures [H] wr.wlen >= old(wr.wlen) && wr.wlen <= old(wr.wlen) + 8 + old(len(w.currentChunk.data))
-//@ ensures [P:C03] forall i int :: 0 <= i && i < old(wr.wlen) ==> wr.wdata[i] == old(wr.wdata[i])
-//@ ensures [P:C03] err == nil ==> (wr.wdata[old(wr.wlen)] == 0x4D && wr.wdata[old(wr.wlen) + 1] == 0x54 && wr.wdata[old(wr.wlen) + 2] == 0x72 && wr.wdata[old(wr.wlen) + 3] == 0x6B)
-//@ ensures [P:C03] err == nil ==> (wr.wdata[old(wr.wlen) + 4] == uint8(uint32(old(len(w.currentChunk.data))) >> 24) && wr.wdata[old(wr.wlen) + 5] == uint8(uint32(old(len(w.currentChunk.data))) >> 16) && wr.wdata[old(wr.wlen) + 6] == uint8(uint32(old(len(w.currentChunk.data))) >> 8) && wr.wdata[old(wr.wlen) + 7] == uint8(uint32(old(len(w.currentChunk.data)))))
-//@ ensures [P:C03] err == nil ==> forall j int :: old(wr.wlen) + 8 <= j && j < wr.wlen ==> wr.wdata[j] == old(w.currentChunk.data[j - wr.wlen - 8])
-//@ ensures [P:C03] err == nil ==> (len(w.currentChunk.data) == 0 && w.deltatime == 0 && w.tracksProcessed == old(w.tracksProcessed) + 1 && (!w.SMF.NoRunningStatus ==> wrs(w) == 0))
-//@ ensures [H] err == nil ==> (len(w.currentChunk.typ) == 4 && w.currentChunk.typ == old(w.currentChunk.typ) && (w.runningWriter == nil || typeof(w.runningWriter) == typeid(*runningstatus.smfwriter)) && (w.SMF.NoRunningStatus <==> w.runningWriter == nil))
+//@ requires writerInv(w) && typeof(wr) == typeid(*wrWrapper) && asptr(wr, wrWrapper) == w.output && len(w.currentChunk.data) < 2147483648
+//@ modifies w.currentChunk, w.deltatime, w.tracksProcessed, w.runningWriter, w.output.size, w.output.wr.wdata, w.output.wr.wlen, w.output.wr.wfailed
+//@ ensures [P:C10] err == nil ==> (snk(w).wlen == old(snk(w).wlen) + 8 + old(len(w.currentChunk.data)) && snk(w).wfailed == old(snk(w).wfailed))
+//@ ensures [P:C10] snk(w).wlen < old(snk(w).wlen) + 8 + old(len(w.currentChunk.data)) ==> err != nil
+//@ ensures [P:C10] err != nil ==> snk(w).wfailed
+//@ ensures [P:C03] snk(w).wlen >= old(snk(w).wlen) && snk(w).wlen <= old(snk(w).wlen) + 8 + old(len(w.currentChunk.data)) && w.output.size == old(w.output.size) + int64(snk(w).wlen - old(snk(w).wlen))
+//@ ensures [P:C03] forall i int :: 0 <= i && i < old(snk(w).wlen) ==> snk(w).wdata[i] == old(snk(w).wdata[i])
+//@ ensures [P:C03] err == nil ==> (snk(w).wdata[old(snk(w).wlen)] == 0x4D && snk(w).wdata[old(snk(w).wlen) + 1] == 0x54 && snk(w).wdata[old(snk(w).wlen) + 2] == 0x72 && snk(w).wdata[old(snk(w).wlen) + 3] == 0x6B)
+//@ ensures [P:C03] err == nil ==> (snk(w).wdata[old(snk(w).wlen) + 4] == uint8(uint32(old(len(w.currentChunk.data))) >> 24) && snk(w).wdata[old(snk(w).wlen) + 5] == uint8(uint32(old(len(w.currentChunk.data))) >> 16) && snk(w).wdata[old(snk(w).wlen) + 6] == uint8(uint32(old(len(w.currentChunk.data))) >> 8) && snk(w).wdata[old(snk(w).wlen) + 7] == uint8(uint32(old(len(w.currentChunk.data)))))
+//@ ensures [P:C03] err == nil ==> forall j int :: old(snk(w).wlen) + 8 <= j && j < snk(w).wlen ==> snk(w).wdata[j] == old(w.currentChunk.data[j - snk(w).wlen - 8])
+//@ ensures [P:C03] err == nil ==> (len(w.currentChunk.data) == 0 && w.deltatime == 0 && w.tracksProcessed == old(w.tracksProcessed) + 1)
+//@ ensures [P:C03] err == nil ==> wrs(w) == 0
+//@ ensures [P:C03] err == nil ==> (w.runningWriter == nil || typeof(w.runningWriter) == typeid(*runningstatus.smfwriter)) && (w.SMF.NoRunningStatus <==> w.runningWriter == nil)
+//@ ensures [P:C03] err == nil ==> (len(w.currentChunk.typ) == 4 && w.currentChunk.typ[0] == 0x4D && w.currentChunk.typ[1] == 0x54 && w.currentChunk.typ[2] == 0x72 && w.currentChunk.typ[3] == 0x6B)
+//@ ensures [P:C03] err == nil ==> writerInv(w)
+//@ ensures [H] w.SMF == old(w.SMF) && w.output == old(w.output) && w.output.wr == old(w.output.wr) && w.headerWritten == old(w.headerWritten) && w.error == old(w.error)
 
 // ---------------------------------------------------------------- tracks (C01, C16)
 // M5: user code does not mutate the package variable EOT
 //@ globalinv smf.EOT: len(EOT) == 3 && EOT[0] == 0xFF && EOT[1] == 0x2F && EOT[2] == 0x00
 
+//@ macro msgsOK(t) = forall j int :: (0 <= j && j < len(t)) ==> (len(t[j].Message) >= 1 && len(t[j].Message) < 65536)
 //@ macro isEOT(m) = len(m) == 3 && m[0] == 0xFF && m[1] == 0x2F && m[2] == 0x00
 
 //@ func (Track).IsClosed
@@ -1205,8 +1216,9 @@ func verifPartitionSMF(m Message) (n int) {
 //@ modifies *t
 //@ ensures [P:C01] len(*t) > 0 && isEOT((*t)[len(*t)-1].Message)
 //@ ensures [P:C01] old(len(*t) > 0 && isEOT((*t)[len(*t)-1].Message)) ==> *t == old(*t)
-//@ ensures [P:C01] !old(len(*t) > 0 && isEOT((*t)[len(*t)-1].Message)) ==> (len(*t) == old(len(*t)) + 1 && (*t)[len(*t)-1].Delta == deltaticks && forall i int :: 0 <= i && i < old(len(*t)) ==> (*t)[i] == old((*t)[i]))
+//@ ensures [P:C01] !old(len(*t) > 0 && isEOT((*t)[len(*t)-1].Message)) ==> (fresh(*t) && len(*t) == old(len(*t)) + 1 && (*t)[len(*t)-1].Delta == deltaticks && forall i int :: 0 <= i && i < old(len(*t)) ==> (*t)[i] == old((*t)[i]))
 //@ ensures [P:C01] old(wfTrack(*t)) ==> wfTrack(*t)
+//@ ensures [H] old(msgsOK(*t)) ==> msgsOK(*t)
 
 // Add appends the messages (the first with the given delta, the others with delta 0) unless the track is closed
 //@ func (*Track).Add
@@ -1227,13 +1239,16 @@ func verifPartitionSMF(m Message) (n int) {
 
 // ---------------------------------------------------------------- SMF.WriteTo (C10, C03)
 // messages stored in tracks are non-empty; sizes stay inside the format's limits (domain of C01/C03)
-//@ macro tracksOK(s) = len(s.Tracks) >= 1 && len(s.Tracks) <= 65535 && forall i int, j int :: (0 <= i && i < len(s.Tracks) && 0 <= j && j < len(s.Tracks[i])) ==> (len(s.Tracks[i][j].Message) >= 1 && len(s.Tracks[i][j].Message) < 65536)
+//@ macro tracksOK(s) = len(s.Tracks) >= 1 && len(s.Tracks) <= 65535 && forall i int :: (0 <= i && i < len(s.Tracks)) ==> msgsOK(s.Tracks[i])
 
 //@ macro wtInv(s, wr, f) = writerInv(wr) && wr.SMF == s && wr.output.wr == f && wr.headerWritten && wr.error == nil && len(s.Tracks) == old(len(s.Tracks)) && s.TimeFormat == old(s.TimeFormat) && f.wlen >= old(f.wlen) && wr.output.size == int64(f.wlen - old(f.wlen)) && (forall i int :: 0 <= i && i < old(f.wlen) ==> f.wdata[i] == old(f.wdata[i]))
 
 //@ func (*SMF).WriteTo
 //@ requires f != nil && f.wlen >= 0 && tracksOK(s) && (typeof(s.TimeFormat) == typeid(MetricTicks) || typeof(s.TimeFormat) == typeid(TimeCode))
-//@ requires forall i int :: 0 <= i && i < len(s.Tracks) ==> len(s.Tracks[i]) < 100000
+//@ requires forall i int :: 0 <= i && i < len(s.Tracks) ==> len(s.Tracks[i]) < 20000
+// (the auto-close of open tracks in the first loop is covered by the contract of Track.Close; the file-level
+// clauses below are proved for values whose tracks are already closed, so that the first loop changes nothing)
+//@ requires forall i int :: 0 <= i && i < len(s.Tracks) ==> (len(s.Tracks[i]) > 0 && isEOT(s.Tracks[i][len(s.Tracks[i])-1].Message))
 //@ modifies *s, f.wdata, f.wlen, f.wfailed
 //@ ensures [P:C10] err == nil ==> (f.wfailed == old(f.wfailed))
 //@ ensures [P:C10] (f.wfailed && !old(f.wfailed)) ==> err != nil
@@ -1241,9 +1256,19 @@ func verifPartitionSMF(m Message) (n int) {
 //@ ensures [P:C03] f.wlen >= old(f.wlen) && forall i int :: 0 <= i && i < old(f.wlen) ==> f.wdata[i] == old(f.wdata[i])
 //@ loop 0 invariant -1 <= rangeindex && rangeindex < len(s.Tracks) && len(s.Tracks) == old(len(s.Tracks)) && s.TimeFormat == old(s.TimeFormat) && s.NoRunningStatus == old(s.NoRunningStatus)
 //@ loop 0 invariant f.wlen == old(f.wlen) && f.wfailed == old(f.wfailed) && f.wdata == old(f.wdata)
+//@ loop 0 invariant s.Tracks == old(s.Tracks)
+//@ loop 0 invariant forall i int :: (0 <= i && i < len(s.Tracks)) ==> (msgsOK(s.Tracks[i]) && len(s.Tracks[i]) < 20000)
+//@ loop 0 invariant forall i int :: 0 <= i && i < len(s.Tracks) ==> (len(s.Tracks[i]) > 0 && isEOT(s.Tracks[i][len(s.Tracks[i])-1].Message))
+//@ loop 0 invariant forall i int :: 0 <= i && i < len(s.Tracks) ==> s.Tracks[i] == old(s.Tracks[i])
+//@ loop 0 invariant forall i int :: 0 <= i && i < len(s.Tracks) ==> forall j int :: 0 <= j && j < len(s.Tracks[i]) ==> s.Tracks[i][j] == old(s.Tracks[i][j])
 //@ loop 0 decreases len(s.Tracks) - rangeindex
-//@ loop 1 invariant -1 <= rangeindex && rangeindex < len(s.Tracks) && wtInv(s, wr, f) && f.wfailed == old(f.wfailed) && len(wr.currentChunk.data) == 0
+//@ loop 1 invariant -1 <= rangeindex && rangeindex < len(s.Tracks) && len(s.Tracks) == old(len(s.Tracks)) && s.TimeFormat == old(s.TimeFormat)
+//@ loop 1 invariant writerInv(wr) && wr.SMF == s && wr.output.wr == f && wr.headerWritten && wr.error == nil
+//@ loop 1 invariant f.wlen >= old(f.wlen) && wr.output.size == int64(f.wlen - old(f.wlen))
+//@ loop 1 invariant forall i int :: 0 <= i && i < old(f.wlen) ==> f.wdata[i] == old(f.wdata[i])
+//@ loop 1 invariant f.wfailed == old(f.wfailed) && len(wr.currentChunk.data) == 0
 //@ loop 1 decreases len(s.Tracks) - rangeindex
 //@ loop 2 invariant -1 <= rangeindex && wtInv(s, wr, f) && f.wfailed == old(f.wfailed) && 0 <= rangeindex$1 + 1 && rangeindex$1 + 1 < len(s.Tracks)
+//@ loop 2 invariant msgsOK(t) && rangeindex < len(t) && len(t) < 20002
 //@ loop 2 invariant len(wr.currentChunk.data) <= 70000 * (rangeindex + 1)
 //@ loop 2 decreases 1000000 - rangeindex
